@@ -119,6 +119,16 @@ func closeRel(a, b, tol float64) bool {
 	return math.Abs(a-b) <= tol*m
 }
 
+// sizeDraw returns a size in [1,usual]; in about 6% of the draws it returns a size in
+// (usual, big] instead, so that nothing depends silently on the usual bounds (swarm style).
+func sizeDraw(w interface{ Choose(int) int }, usual, big int) int {
+	v := 1 + w.Choose(usual)
+	if big > usual && w.Choose(16) == 15 {
+		v = usual + 1 + w.Choose(big-usual)
+	}
+	return v
+}
+
 func cloneF(a []float64) []float64 { return append([]float64(nil), a...) }
 
 // jsonFloat makes non-finite values printable in samples
